@@ -22,7 +22,8 @@ pub enum Sc {
     /// `pattern`: 0 receiver waits first, 1 all sent then received, 2 receive between sends; `foreign`: interleave datagrams of session 4/8
     Burst { topo: u8, k: usize, pattern: u8, foreign: bool, id_len: usize, lens: Vec<usize> },
     /// size contract: the peer advertises `limit` (None = datagrams disabled); `role_server`: the endpoint under test is the server
-    Size { limit: Option<usize>, role_server: bool },
+    /// `skip`: server role only, the raw client puts the CONNECT on its (skip+1)-th bidirectional stream (session id 4 * skip)
+    Size { limit: Option<usize>, role_server: bool, skip: usize },
 }
 
 impl Sc {
@@ -31,7 +32,7 @@ impl Sc {
             Sc::Pure { qid, len, content } => json!({"k":"pure","qid":qid,"len":len,"content":content}),
             Sc::PureRead { qid, id_len, len } => json!({"k":"pure_read","qid":qid,"id_len":id_len,"len":len}),
             Sc::Burst { topo, k, pattern, foreign, id_len, lens } => json!({"k":"burst","topo":topo,"n":k,"pattern":pattern,"foreign":foreign,"id_len":id_len,"lens":lens}),
-            Sc::Size { limit, role_server } => json!({"k":"size","limit":limit,"role_server":role_server}),
+            Sc::Size { limit, role_server, skip } => json!({"k":"size","limit":limit,"role_server":role_server,"skip":skip}),
         }
     }
     pub fn from_json(v: &Value) -> Sc {
@@ -40,7 +41,7 @@ impl Sc {
             "pure" => Sc::Pure { qid: v["qid"].as_u64().unwrap(), len: us("len"), content: us("content") as u8 },
             "pure_read" => Sc::PureRead { qid: v["qid"].as_u64().unwrap(), id_len: us("id_len"), len: us("len") },
             "burst" => Sc::Burst { topo: us("topo") as u8, k: us("n"), pattern: us("pattern") as u8, foreign: v["foreign"].as_bool().unwrap_or(false), id_len: us("id_len"), lens: v["lens"].as_array().unwrap().iter().map(|x| x.as_u64().unwrap() as usize).collect() },
-            _ => Sc::Size { limit: v["limit"].as_u64().map(|x| x as usize), role_server: v["role_server"].as_bool().unwrap_or(true) },
+            _ => Sc::Size { limit: v["limit"].as_u64().map(|x| x as usize), role_server: v["role_server"].as_bool().unwrap_or(true), skip: v["skip"].as_u64().unwrap_or(0) as usize },
         }
     }
 }
@@ -229,19 +230,33 @@ async fn run_burst(topo: u8, k: usize, pattern: u8, foreign: bool, id_len: usize
     Ok(format!("delivered {}/{k}", got.len()))
 }
 
-async fn run_size(limit: Option<usize>, role_server: bool) -> Result<String, String> {
+async fn run_size(limit: Option<usize>, role_server: bool, skip: usize) -> Result<String, String> {
     let world = World::new(11);
     let peer = Tweak { dgram_recv_buf: Some(limit), ..Default::default() };
     let own = Tweak::default();
     let (conn, _keep): (wtransport::Connection, Box<dyn std::any::Any>) = if role_server {
-        let r = raw_vs_server(&world, &own, &peer).await?;
+        let r = raw_vs_server_skip(&world, &own, &peer, skip).await?;
         (r.sconn.clone(), Box::new(r))
     } else {
         let r = client_vs_raw(&world, &peer, &own, "https://localhost/").await?;
         (r.cconn.clone(), Box::new(r))
     };
+    let sid = conn.session_id().into_u64();
+    if role_server && sid != 4 * skip as u64 {
+        return Err(format!("harness: session id {sid}, expected {}", 4 * skip));
+    }
     let m = std::panic::catch_unwind(std::panic::AssertUnwindSafe(|| conn.max_datagram_size())).map_err(|_| format!("max_datagram_size() panicked with peer limit {limit:?}"))?;
-    let mut obs = format!("limit={limit:?} max={m:?}");
+    let mut obs = format!("limit={limit:?} sid={sid} max={m:?}");
+    // independent expectation: what the transport can carry minus the quarter stream id actually written in front
+    let quic_max = conn.quic_connection().max_datagram_size();
+    let header = rc::varint_min_len(sid / 4);
+    match (quic_max, m) {
+        (Some(q), Some(m)) if q >= header && m != q - header => {
+            return Err(format!("session {sid}: the transport carries {q} bytes, the datagram header is {header} byte(s), but max_datagram_size() = {m}"));
+        }
+        (Some(q), None) if q > header => return Err(format!("session {sid}: the transport carries {q} bytes, the header is {header}, but max_datagram_size() = None")),
+        _ => {}
+    }
     match m {
         Some(m) => {
             if m >= 65536 {
@@ -295,9 +310,9 @@ pub fn exec(sc: &Sc) -> Outcome {
             o.panics = info.panics;
             o
         }
-        Sc::Size { limit, role_server } => {
-            let (l, r) = (*limit, *role_server);
-            let (res, info) = run_sim(&SelectPolicy::default(), move || run_size(l, r));
+        Sc::Size { limit, role_server, skip } => {
+            let (l, r, sk) = (*limit, *role_server, *skip);
+            let (res, info) = run_sim(&SelectPolicy::default(), move || run_size(l, r, sk));
             let mut o = match res {
                 Ok(obs) => Outcome::ok(if obs.contains("max=None") { "no-maximum" } else { "contract-exact" }, obs),
                 Err(e) => Outcome::fail("size-contract", e.clone(), e).tag("part", "size").tag("limit", l.map(|x| x as i64).unwrap_or(-1)),
@@ -366,22 +381,28 @@ pub fn scenarios(tier: Tier) -> Vec<Sc> {
     let limits: Vec<Option<usize>> = vec![None, Some(0), Some(1), Some(2), Some(8), Some(9), Some(10), Some(11), Some(16), Some(17), Some(18), Some(64), Some(1200), Some(65535)];
     for l in limits {
         for role in [true, false] {
-            out.push(Sc::Size { limit: l, role_server: role });
+            out.push(Sc::Size { limit: l, role_server: role, skip: 0 });
+            // session ids whose varint is longer than the quarter stream id's (the header is the latter)
+            if role {
+                for skip in if thorough { vec![15usize, 16, 17, 40, 63, 64, 65] } else { vec![16usize, 64] } {
+                    out.push(Sc::Size { limit: l, role_server: true, skip });
+                }
+            }
         }
     }
     if deep {
         for l in 0..=1400usize {
             for role in [true, false] {
-                out.push(Sc::Size { limit: Some(l), role_server: role });
+                out.push(Sc::Size { limit: Some(l), role_server: role, skip: 0 });
             }
         }
     }
     if thorough {
         for l in 3..=40usize {
-            out.push(Sc::Size { limit: Some(l), role_server: l % 2 == 0 });
+            out.push(Sc::Size { limit: Some(l), role_server: l % 2 == 0, skip: if l % 2 == 0 { l % 70 } else { 0 } });
         }
         for l in [100usize, 500, 1000, 1100, 1150, 1180, 1190, 1199, 1201, 1210, 1250, 1300, 2000, 16384, 65534] {
-            out.push(Sc::Size { limit: Some(l), role_server: true });
+            out.push(Sc::Size { limit: Some(l), role_server: true, skip: l % 90 });
         }
     }
     dedup(out, |s| s.to_json().to_string())
